@@ -910,3 +910,19 @@ B('bat-filtered-batch', ['C10'], ['C10-R2'],
   (A, "                break\n        return tasks\n", "                break\n        return [t for t in tasks if not t[2].done()]\n"))
 T('buf-loader-except-exception-and-cancel', ['C03'],
   (A, "            except BaseException:  # noqa\n                logger.exception(\"Failed to get args from: %r\", iterable)", "            except (Exception, aio.CancelledError):  # noqa\n                logger.exception(\"Failed to get args from: %r\", iterable)"))
+
+B('cache-no-thread-lock', ['C01'], ['C01-R1'],
+  (A, "    event_making_lock = Lock()\n", "    import contextlib\n    event_making_lock = contextlib.nullcontext()\n"))
+B('cache-asyncio-lock', ['C01'], ['C01-R1'],
+  (A, "    event_making_lock = Lock()\n", "    event_making_lock = aio.Lock()\n"),
+  (A, "            with event_making_lock:\n                try:  # verify", "            async with event_making_lock:\n                try:  # verify"),
+  (A, "                    with event_making_lock:\n                        # Wake up", "                    async with event_making_lock:\n                        # Wake up"))
+
+B('bat-semaphore-removed', ['C10'], ['C10-R3'],
+  (A, "        self._semaphore = aio.Semaphore(value=max_concurrent_batches)\n", ""),
+  (A, "            async with self._semaphore:  # Limit concurrent executions", "            if True:"))
+
+B('cache-marker-keeps-dead-loop', ['C01'], ['C01-R9'],
+  (A, "                    caching_loop = aio.get_running_loop()\n                    event = aio.Event()", "                    event = aio.Event()"))
+B('cache-marker-reuses-event', ['C01'], ['C01-R9', 'C01-R1'],
+  (A, "                    caching_loop = aio.get_running_loop()\n                    event = aio.Event()\n                    events[key] = caching_loop, event", "                    caching_loop = aio.get_running_loop()\n                    events[key] = caching_loop, event"))
